@@ -22,11 +22,14 @@ RULE = ("texts of 1..8 examples in standard syntax: assignments, printing calls,
         "their calls, raising examples with traceback wants (with and without stack lines, multi-line messages), "
         "<BLANKLINE>, ';' lines, comment-only examples, try/except, multi-line literals, examples that print and return a "
         "value, inline '# doctest:' directives SKIP / ELLIPSIS / NORMALIZE_WHITESPACE / IGNORE_EXCEPTION_DETAIL; separation "
-        "by blank lines and prose; indentation 0 or 4.  A text is used only if the standard doctest module passes it with "
+        "by blank lines and prose; every example at its own indentation 0/2/4/8, changing after a want (directly), after "
+        "a blank line or prose, and (rarely, finding F15) directly under source.  A text is used only if the standard doctest module passes it with "
         "optionflags=0.  Non-trivial = at least one want and one compound or raising example; distinct by text hash")
 ASSUMPTIONS = [
     "texts that the standard module itself rejects are generator noise and are skipped (counted as std-rejects)",
     "'executing the same examples' is judged by the event log each example appends its id to",
+    "a prompt written at another indentation directly under SOURCE (no want, blank line or prose between) is finding "
+    "F15: classified when the same text with a blank line in front of those prompts passes on both sides",
     "an example that prints and returns a non-None value (want = output + repr) is finding F6: classified by that "
     "mechanism (the failing example both printed and returned a value in the reference run)",
 ]
@@ -45,12 +48,13 @@ def boom(i, msg="bad"):
 '''
 KINDS = ['assign', 'emit', 'val', 'str', 'for', 'def', 'call', 'if', 'raise', 'raise_multi', 'semi', 'mlist', 'comment_ex',
          'skip', 'ellipsis', 'nws', 'blank', 'dict', 'none', 'ied', 'try', 'pv', 'while', 'with', 'raise_builtin', 'strrepr',
-         'float', 'tuple', 'printmulti', 'escstr', 'forval', 'ifval']
+         'float', 'tuple', 'printmulti', 'escstr', 'forval', 'ifval', 'onlyblank']
 
 
 def required_cells(tier):
     return (['kind:' + k for k in KINDS if k != 'pv'] + ['terminated-continuation', 'stack-lines', 'prose-separation',
-            'indent:0', 'indent:4', 'both-pass'])
+            'indent:0', 'indent:4', 'indent:2', 'indent:8', 'both-pass', 'reindent-after-want:less',
+            'reindent-after-want:more'])
 
 
 def gen_example(rng, i, defined):
@@ -126,6 +130,9 @@ def gen_example(rng, i, defined):
         src = ['try:', '    boom(%d)' % i, 'except E:', '    emit(-%d)' % i]
     elif k == 'pv':
         src = ['pv(%d)' % i]
+    elif k == 'onlyblank':
+        # an evaluated expression whose whole output is one empty line: the want is <BLANKLINE>
+        src = ['print(end=T.append(%d) or "\\n")' % i]
     return k, src
 
 
@@ -166,6 +173,11 @@ def make(seed):
     feats = set()
     n = rng.randint(1, 8)
     i = 0
+    # every example carries its own indentation (the standard module strips it per example)
+    levels = [0, 4, 4, 2, 8]
+    cur = rng.choice([0, 4])
+    reindent_prob = rng.choice([0.0, 0.0, 0.3, 0.6])
+    after_source = []      # line numbers of prompts written at another indentation directly under SOURCE (finding F15)
     for _ in range(n):
         i += 1
         k, src = gen_example(rng, i, defined)
@@ -175,6 +187,7 @@ def make(seed):
             chunks = [src[:j], src[j + 1:]]
         else:
             chunks = [src]
+        want = []
         for src in chunks:
             term = rng.random() < 0.3 and len(src) > 1
             if k in ('skip', 'comment_ex'):
@@ -202,21 +215,33 @@ def make(seed):
                     out = out.replace('c%dd' % i, '...')
                 if k == 'nws':
                     out = out.replace('a   b', 'a b')
-                for w in (out.rstrip('\n').split('\n') if out else []):
+                for w in (out[:-1].split('\n') if out else []):
                     want.append(w if w.strip() else '<BLANKLINE>')
             examples.append({'kind': k, 'src': src, 'print_and_value': bool(before) and value is not None,
                              'first_line': ex_lines[0]})
-            lines += ex_lines + want
+            pad = ' ' * cur
+            lines += [pad + ln for ln in ex_lines + want]
         feats.add('kind:' + k)
+        feats.add('indent:%d' % cur)
         r = rng.random()
+        separated = False
         if r < 0.2:
             lines.append('')
+            separated = True
         elif r < 0.3:
             lines += ['', 'Some prose here.', '']
             feats.add('prose-separation')
-    ind = rng.choice(['', '    '])
-    feats.add('indent:%d' % len(ind))
-    return '\n'.join(ind + ln if ln else ln for ln in lines), examples, feats
+            separated = True
+        if (want or separated) and rng.random() < reindent_prob:
+            new = rng.choice([x for x in levels if x != cur])
+            if want and not separated:
+                feats.add('reindent-after-want:' + ('less' if new < cur else 'more'))
+            cur = new
+        elif not want and not separated and rng.random() < 0.03:
+            # directly under source, no want between: accepted by the standard module, finding F15 here
+            cur = rng.choice([x for x in levels if x != cur])
+            after_source.append(len(lines))
+    return '\n'.join(lines), examples, feats, after_source
 
 
 def run_std(doc):
@@ -229,10 +254,41 @@ def run_std(doc):
     return res, ns['T']
 
 
-def check_case(ctx, index, seed):
-    doc, examples, feats = make(seed)
-    case = {'index': index, 'case_seed': seed, 'doc': doc,
+class _Sink(object):
+    """recorder for the sub-run of a repaired text: keeps violations, counts nothing"""
+    shard = -1
+
+    def __init__(self, known_keys=()):
+        self.found = []
+        self.known_keys = set(known_keys)
+
+    def violation(self, mech, msg, case, **kw):
+        # another listed finding met in the repaired text (e.g. F6) is not a new cause
+        v = dict(kw, mechanism=mech, message=msg, case=case)
+        if classify(v) not in self.known_keys:
+            self.found.append((mech, msg))
+
+    def evaluation(self, *a, **k): pass
+    event = cell = nontrivial = sample = evaluation
+
+
+def repaired_text(doc, after_source):
+    """the same text with a blank line in front of every prompt that was re-indented directly under source"""
+    lines = doc.split('\n')
+    for k in sorted(after_source, reverse=True):
+        lines.insert(k, '')
+    return '\n'.join(lines)
+
+
+def check_case(ctx, index, seed, doc_override=None):
+    doc, examples, feats, after_source = make(seed)
+    if after_source and len(doc.split('\n')) <= after_source[-1]:
+        after_source = [k for k in after_source if k < len(doc.split('\n'))]      # the change came after the last example
+    case = {'index': index, 'case_seed': seed, 'doc': doc, 'reindent_after_source': after_source,
             'print_and_value': [e['first_line'] for e in examples if e['print_and_value']]}
+    if doc_override is not None:
+        doc = doc_override
+        case['doc'] = doc
     try:
         res, Tstd = run_std(doc)
     except Exception as ex:
@@ -248,6 +304,12 @@ def check_case(ctx, index, seed):
         ctx.nontrivial(doc)
 
     def bad(mech, msg, **kw):
+        if after_source and doc_override is None:
+            # finding F15 by mechanism: with a blank line in front of the re-indented prompts (nothing else changed)
+            # the text must go through cleanly; otherwise the violation has another cause and is reported as such
+            sub = _Sink(getattr(ctx, 'known_keys', ()))
+            check_case(sub, index, seed, doc_override=repaired_text(doc, after_source))
+            kw['f15_only_cause'] = not sub.found
         ctx.violation(mech, msg + '\n--- text (passes under the standard doctest module: %d examples attempted) ---\n%s' % (
             res.attempted, doc), case, **kw)
 
@@ -291,6 +353,8 @@ def check_case(ctx, index, seed):
             expected=Tstd)
         return
     ctx.cell('both-pass')
+    if after_source:
+        ctx.cell('reindent-after-source-passes')
     for f in feats:
         ctx.cell(f)
     if ctx.shard == 0:
@@ -310,6 +374,10 @@ def replay(case, ctx):
 
 
 def classify(v):
+    # F15 by mechanism: the text holds a prompt re-indented directly under source, and the same text with a blank line
+    # in front of those prompts passes on both sides
+    if v['case'].get('reindent_after_source') and v.get('f15_only_cause') is True:
+        return 'prompt-reindented-after-source'
     # F6 by mechanism: the failing example both printed text and returned a non-None value in the REPL reference run
     if v.get('mechanism') == 'xdoctest-fails' and v.get('exc') == 'GotWantException':
         fl = v.get('failing_first_line')
